@@ -14,6 +14,9 @@ import traceback
 
 VERIF = os.path.dirname(os.path.dirname(os.path.abspath(__file__)))
 KF_PATH = os.path.join(VERIF, "known_findings.json")
+# VERIF_STRICT=1: a unit whose symbolic part could not be carried through makes the check undecided (exit 2) even when its
+# concrete executions passed -- used on the unchanged tree, where every proof unit must go through
+STRICT = os.environ.get("VERIF_STRICT", "") not in ("", "0")
 # evidence/replays of runs against a scratch copy (VERIF_REPO) must not overwrite the real ones
 _SCRATCH = os.environ.get("VERIF_REPO", "/repo") not in ("/repo", "")
 OUT = os.environ.get("VERIF_OUT") or ("/dev/shm/verif_out" if _SCRATCH else VERIF)
@@ -187,6 +190,12 @@ def _job(args):
             out["replays"].append({"label": ob["label"], "inputs": ob["model"], "confirmed": bool(failed),
                                    "failed": [[f[0], f[2]] for f in failed], "status": r["status"],
                                    "error": r["error"], "model_info": ob["info"]})
+    # a proof unit that could not be carried through on this tree (contract does not bind to the changed code, unsupported
+    # construct, path limit): remembered as the unit's symbolic issue; the concrete executions below still run, and decide()
+    # reports the unit as DEGRADED (not proved, held on everything explored) instead of leaving the whole check undecided
+    if out["status"] in ("unsupported", "unbound"):
+        out["sym_issue"] = [out["status"], out["error"]]
+        out["status"], out["error"] = "ok", None
     # bounded stand-in / engine cross-check: seeded concrete samples of the same contract
     n = u.bounded_samples if tier == "quick" else u.bounded_samples * 10
     if u.level == "bounded" and hasattr(u.fn, "enumerate_inputs"):
@@ -307,6 +316,7 @@ def decide(prop, tier, seed, units, results, wall):
     lines = []
     violations = []
     undecided = []
+    degraded = []
     crashes = []
     n_ob = n_dis = 0
     by_backend = {}
@@ -323,10 +333,15 @@ def decide(prop, tier, seed, units, results, wall):
         samples += r["samples"]
         distinct += r.get("distinct_samples", 0)
         subs.update(r["substitutions"])
+        # the concrete executions of the same contract on the real code went through: what the symbolic part could not
+        # decide is then "not proved on this tree" (DEGRADED), not "nothing explored" (UNDECIDED)
+        explored = r["status"] == "ok" and r["samples"] > 0 and not r["sample_failures"] and not STRICT
         if r["status"] == "crash":
             crashes.append((tag, r["error"]))
         elif r["status"] in ("unsupported", "unbound", "vacuous"):
             undecided.append((tag, r["status"], r["error"]))
+        if r.get("sym_issue"):
+            (degraded if explored else undecided).append((tag, r["sym_issue"][0], r["sym_issue"][1]))
         labels = {}
         for ob in r["obligations"]:
             n_ob += 1
@@ -335,9 +350,14 @@ def decide(prop, tier, seed, units, results, wall):
                 n_dis += 1
                 by_backend[ob["solver"]] = by_backend.get(ob["solver"], 0) + 1
             elif ob["status"] == "unknown":
-                undecided.append((tag, "unknown", "%s [path %s] %s" % (ob["label"], ob["path"], ob["reason"])))
+                (degraded if explored else undecided).append((tag, "unknown", "%s [path %s] %s" % (ob["label"], ob["path"], ob["reason"])))
             labels.setdefault(ob["label"], []).append(ob["status"])
-        if r["level"] == "proof":
+        not_proved = bool(r.get("sym_issue")) or any(o["status"] == "unknown" for o in r["obligations"])
+        if r["level"] == "proof" and not_proved:
+            bounded_units.append({"unit": tag, "evaluations": r["samples"], "distinct": r.get("distinct_samples", 0), "exhaustive": False,
+                                  "note": "proof unit NOT proved on this tree (%s); counted as bounded: concrete executions of its contract only"
+                                          % ((r.get("sym_issue") or ["unknown obligation"])[0]), "status": r["status"]})
+        elif r["level"] == "proof":
             proved_units.append({"unit": tag, "paths": r["paths"], "obligations": len(r["obligations"]),
                                  "discharged": sum(1 for o in r["obligations"] if o["status"] == "discharged"),
                                  "solver_s": r["solver_s"], "status": r["status"], "samples_cross_checked": r["samples"]})
@@ -415,27 +435,30 @@ def decide(prop, tier, seed, units, results, wall):
         code = 1
     for tag, st, err in undecided:
         lines.append("UNDECIDED %s: %s: %s" % (tag, st, (err or "").strip().splitlines()[-1] if err else ""))
+    for tag, st, err in degraded:
+        lines.append("DEGRADED %s: not proved on this tree (%s: %s); the same contract held on every concrete execution of the "
+                     "real code made by this run" % (tag, st, (err or "").strip().splitlines()[-1] if err else ""))
     for tag, err in crashes:
         lines.append("CHECKER-CRASH %s: %s" % (tag, (err or "").strip().splitlines()[-1] if err else ""))
         sys.stderr.write("---- %s\n%s\n" % (tag, err))
     ev = build_evidence(prop, tier, seed, units, covered, n_ob, n_dis, by_backend, solver_s, max_q, samples, distinct,
-                        proved_units, bounded_units, sample_obs, subs, kconfirmed, nv, wall, undecided)
+                        proved_units, bounded_units, sample_obs, subs, kconfirmed, nv, wall, undecided, degraded)
     with open(os.path.join(OUT, "evidence", "%s.json" % prop), "w") as f:
         json.dump(ev, f, indent=1)
-    lines.append("%s tier=%s units=%d obligations=%d discharged=%d samples=%d violations=%d undecided=%d exit=%d (%.1fs)" % (
-        prop, tier, len(results), n_ob, n_dis, samples, nv, len(undecided), code, wall))
+    lines.append("%s tier=%s units=%d obligations=%d discharged=%d samples=%d violations=%d undecided=%d%s exit=%d (%.1fs)" % (
+        prop, tier, len(results), n_ob, n_dis, samples, nv, len(undecided), (" degraded=%d" % len(degraded)) if degraded else "", code, wall))
     return code, lines, ev
 
 
 def build_evidence(prop, tier, seed, units, covered, n_ob, n_dis, by_backend, solver_s, max_q, samples, distinct,
-                   proved_units, bounded_units, sample_obs, subs, kconfirmed, nv, wall, undecided):
+                   proved_units, bounded_units, sample_obs, subs, kconfirmed, nv, wall, undecided, degraded=()):
     meta = {}
     try:
         mod = importlib.import_module("contracts.%s" % prop)
         meta = getattr(mod, "META", {})
     except Exception:
         pass
-    all_proof = bool(proved_units) and not bounded_units and not meta.get("partial")
+    all_proof = bool(proved_units) and not bounded_units and not meta.get("partial") and not degraded and not undecided
     level = "proof" if all_proof else meta.get("level", "other")
     cov = {
         "obligations": n_ob, "discharged": n_dis,
@@ -451,6 +474,8 @@ def build_evidence(prop, tier, seed, units, covered, n_ob, n_dis, by_backend, so
         "samples": sample_obs or [{"note": "no obligation generated"}],
         "known_findings_confirmed": kconfirmed,
         "undecided": [list(u) for u in undecided][:20],
+        "degraded_units": [{"unit": t, "why": "%s: %s" % (st, (err or "").strip().splitlines()[-1] if err else ""),
+                            "counted_as": "not proved; bounded (concrete executions of the contract only)"} for t, st, err in degraded][:40],
         "extraction": "whole source file re-read from /repo, transformed by loader.py T1-T3, compiled and executed on proxies",
         "explanation": meta.get("explanation", ""),
     }
